@@ -174,23 +174,33 @@ def r2_check_before_write(rep, ctx):
     sres = Resolver(m, st_fn)
     tstores = [n for n, f, k in _state_writes(m, st_fn) if f == "_unit_system_template"]
     loops = [lp for lp in own_statements(st_fn.node) if isinstance(lp, ast.For)]
+    def whole_registry(a):
+        if a in (("field", "_unit_systems"), ("call", ("field", "GetUnitSystems"), (), ())):
+            return True
+        if a[0] == "call" and a[1] in (("name", "list"), ("name", "tuple")) and len(a[2]) == 1:
+            return whole_registry(a[2][0])
+        if a[0] == "call" and a[1][0] == "attr" and a[1][2] in ("values", "items") and not a[2]:
+            return whole_registry(a[1][1])
+        return False
+
     ok_iter = False
     for lp in loops:
         t = sres.term(lp.iter)
-        def whole_registry(a):
-            if a in (("field", "_unit_systems"), ("call", ("field", "GetUnitSystems"), (), ())):
-                return True
-            if a[0] == "call" and a[1] in (("name", "list"), ("name", "tuple")) and len(a[2]) == 1:
-                return whole_registry(a[2][0])
-            if a[0] == "call" and a[1][0] == "attr" and a[1][2] in ("values", "items") and not a[2]:
-                return whole_registry(a[1][1])
-            return False
         direct = all(whole_registry(a) for a in alternatives(t))
         if direct and tstores and scfg.dominated_by_node(scfg.node_of(tstores[0]), lambda k, a, lp=lp: a is lp):
             checks_ = [c for c in own_nodes(lp) if isinstance(c, ast.Call) and isinstance(c.func, ast.Attribute) and c.func.attr == "_CheckUnitSystemMapping"]
             H = scfg.node_of(lp)
             every = bool(checks_) and H not in scfg.reach(H, avoid={scfg.node_of(c) for c in checks_}, start_edges={"T"})
             ok_iter = every
+    if not ok_iter and tstores:
+        # comprehension form: [.. for us in <whole registry> if not self._CheckUnitSystemMapping(..)]
+        for st_ in own_statements(st_fn.node):
+            if isinstance(st_, ast.Assign) and isinstance(st_.value, (ast.ListComp, ast.SetComp, ast.GeneratorExp)) and len(st_.value.generators) == 1:
+                g = st_.value.generators[0]
+                t = sres.term(g.iter)
+                filt = any(isinstance(c, ast.Call) and isinstance(c.func, ast.Attribute) and c.func.attr == "_CheckUnitSystemMapping" for i_ in g.ifs for c in ast.walk(i_))
+                if all(whole_registry(a) for a in alternatives(t)) and filt and scfg.dominated_by_node(scfg.node_of(tstores[0]), lambda k, a, st_=st_: a is st_):
+                    ok_iter = True
     rep.check(ok_iter, "C17.R2", "SetTemplate:every-system-checked", "the template is stored only after a loop over all registered systems checked each of them against it",
               "the new template can be stored without checking every registered system against it (the loop does not iterate the registry itself on every path, or skips systems): a template that a registered system does not cover is accepted",
               node=tstores[0] if tstores else None, fn=st_fn)
